@@ -6,7 +6,7 @@ extern "C" {
 size_t sut_domain_size(int mt);
 size_t sut_agent_size(int mt);
 size_t sut_node_size();
-void sut_domain_construct(int mt, void *mem);
+void sut_domain_construct(int mt, void *mem, int default_init);
 void sut_agent_construct(int mt, void *mem, void *dom); // constructor goes online
 void sut_online(int mt, void *ag);
 void sut_offline(int mt, void *ag);
